@@ -16,7 +16,10 @@ CHUNK = 20
 
 
 APPEND_FILES = [c06.ALPHA[0], c06.ALPHA[1], c06.ALPHA[6], c06.ALPHA[7], c06.ALPHA[8], c06.ALPHA[13],
-                C.spec("MARKFF", n=300, pat="mFF.p0"), C.spec("MARK01", n=600, pat="m01.p2")]
+                C.spec("MARKFF", n=300, pat="mFF.p0"), C.spec("MARK01", n=600, pat="m01.p2"),
+                # addresses in the upper half and at the very top of memory (a rewritten tape carries them through the reader first)
+                c06.ALPHA[12], C.spec("VECTORS", load=0xFFF2, exec_=0xFFFE, n=14), C.spec("IOPAGE", load=0xFF20, exec_=0xFF01, n=3),
+                C.spec("HALF", load=0x8000, exec_=0x8001, n=2)]
 
 
 # names outside the domain the property quantifies over (not printable ASCII): the writer may refuse them, but whatever image it
@@ -49,7 +52,8 @@ def cases(tier, seed):
         yield {"k": "append", "files": [APPEND_FILES[i] for i in tup]}
 
 
-FOREIGN_OLD = [C.spec("OLD1", n=300, pat="ramp", load=0x1000, exec_=0x1000), C.spec("OLD2", ftype=0, dtype=0xFF, load=0, exec_=0, n=20, pat="55")]
+FOREIGN_OLD = [C.spec("OLD1", n=300, pat="ramp", load=0x1000, exec_=0x1000), C.spec("OLD2", ftype=0, dtype=0xFF, load=0, exec_=0, n=20, pat="55"),
+               C.spec("OLD3", n=14, pat="ramp7", load=0xFFF2, exec_=0xFFFE)]
 
 
 def foreign_tape(base):
